@@ -181,7 +181,8 @@ func runC24(c *core.Ctx) {
 			}
 			e := ast.Unparen(r.Results[0])
 			if se, ok := e.(*ast.SliceExpr); ok && varOf(no, se.X) == nk && se.High == nil && !se.Slice3 && se.Low != nil {
-				lin := core.Linearize(no.Info(), se.Low, namer)
+				// (a local holding the cut length stands for its definition)
+				lin := core.Linearize(no.Info(), c24subst(no, se.Low, 0), namer)
 				form := lin.String()
 				wantForm := core.ParseLinCmp(cut + " == 0").Form.String()
 				if form != wantForm {
@@ -195,7 +196,7 @@ func runC24(c *core.Ctx) {
 			if varOf(no, e) == nk {
 				// short keys returned unchanged: only under len(key) < cut
 				ok, wit := no.GuardedBy(rp, func(ft core.Fact) bool {
-					lc, ok := core.NormLinCmp(no.Info(), ft, namer)
+					lc, ok := c24linOrder(no, ft, namer)
 					return ok && lc.Equal(wantGuard)
 				})
 				if !ok {
